@@ -43,11 +43,15 @@ type Case struct {
 	Codec   int             `json:"codec"`
 	Flags   Flags           `json:"flags"`
 	Note    string          `json:"note,omitempty"`
+	// OptStyle is how the writer options are passed (sut.OptStyle): 0 page
+	// size then codec, 1 codec then page size, 2 both given twice with other
+	// values first (the later option decides)
+	OptStyle int `json:"option_style,omitempty"`
 }
 
 // MakeCase builds the replayable form.
 func MakeCase(t *sut.Target, recs []refpq.Val, batches []int, page int, codec sut.Codec, flags Flags) Case {
-	return Case{Target: t.Name, Records: refpq.RecsToJSON(t.Schema(), recs), Batches: batches, Page: page, Codec: int(codec), Flags: flags}
+	return Case{Target: t.Name, Records: refpq.RecsToJSON(t.Schema(), recs), Batches: batches, Page: page, Codec: int(codec), Flags: flags, OptStyle: sut.OptStyle}
 }
 
 // Replay re-runs a case.
@@ -57,6 +61,9 @@ func (c Case) Replay() []Failure {
 	if err != nil {
 		return []Failure{{Class: "harness", Msg: err.Error()}}
 	}
+	old := sut.OptStyle
+	sut.OptStyle = c.OptStyle
+	defer func() { sut.OptStyle = old }()
 	_, fails := Run(t, recs, c.Batches, c.Page, sut.Codec(c.Codec), c.Flags)
 	return fails
 }
